@@ -200,6 +200,7 @@ def _same_result(a, b, rtol=1e-11):
 class Ctx:
     CASE_TIMEOUT_S = 60
     MAX_STORED_VIOLATIONS = 60
+    MAX_STORED_PER_SIGNATURE = 6
     SELFCHECK_CASES = 8
 
     def __init__(self, prop, tier, shard=0, nshards=1, seed=0, group=0, ngroups=1, replay=False):
@@ -366,7 +367,8 @@ class Ctx:
         self._vio_keys.add(key)
         self.violation_count += 1
         self.counters["violations:" + sig] += 1
-        if len(self.violations) < self.MAX_STORED_VIOLATIONS or self.replay:
+        # stored per signature (a flood of one signature, e.g. a known finding, must not crowd out another)
+        if self.counters["violations:" + sig] <= self.MAX_STORED_PER_SIGNATURE or self.replay:
             self.violations.append(
                 {
                     "property": self.prop,
@@ -425,13 +427,18 @@ class Ctx:
 
     def _guarded(self, fn, case):
         old = signal.signal(signal.SIGALRM, _alarm)
-        # thorough cases are larger (whole rows of a pair table, long parameter sweeps): more time per case
-        signal.alarm(self.CASE_TIMEOUT_S if self.tier == "quick" else 15 * self.CASE_TIMEOUT_S)
+        oldp = signal.signal(signal.SIGPROF, _alarm)
+        # the budget is CPU time of this process (a loaded machine must not turn a slow case into a finding);
+        # a generous wall-clock alarm backs it up.  Thorough cases are larger (whole rows of a pair table, long
+        # parameter sweeps): 15x the budget
+        budget = self.CASE_TIMEOUT_S if self.tier == "quick" else 15 * self.CASE_TIMEOUT_S
+        signal.setitimer(signal.ITIMER_PROF, budget)
+        signal.alarm(10 * budget)
         try:
             fn(case, self)
         except CaseTimeout:
             self.violation(
-                "timeout", "persim call did not terminate within %ds" % (self.CASE_TIMEOUT_S if self.tier == "quick" else 15 * self.CASE_TIMEOUT_S)
+                "timeout", "persim call did not terminate within %ds of CPU time" % (self.CASE_TIMEOUT_S if self.tier == "quick" else 15 * self.CASE_TIMEOUT_S)
             )
         except HarnessError:
             raise
@@ -454,7 +461,9 @@ class Ctx:
             )
         finally:
             signal.alarm(0)
+            signal.setitimer(signal.ITIMER_PROF, 0)
             signal.signal(signal.SIGALRM, old)
+            signal.signal(signal.SIGPROF, oldp)
 
     # ---- (de)serialisation between worker and runner -------------------------------------
     def dump(self):
